@@ -223,3 +223,32 @@ H_ENTRY(h_qrmn_p) {
 }
 #endif
 #endif
+
+// ---------------------------------------------------------------- polynomial interpolation
+// (a_k, b_k), k < m, modulo the prime q of the slice: on success the returned coefficients reproduce every point;
+// success <=> the abscissae are pairwise distinct modulo q
+#ifdef H_IQ
+#include <vector>
+#ifndef H_IM
+#define H_IM 3
+#endif
+H_ENTRY(h_interpolate) {
+  std::vector<mpz_ptr> a, b, f; Z q(H_IQ);
+  for (unsigned k = 0; k < H_IM; ++k) {
+    mpz_ptr x = new mpz_t(), y = new mpz_t(), z = new mpz_t(); mpz_init(x); mpz_init(y); mpz_init(z);
+    vfh_mpz(x, 0, H_IQ); vfh_mpz(y, 0, H_IQ); a.push_back(x); b.push_back(y); f.push_back(z);
+  }
+  bool ok = false; H_TRY(ok = tmcg_interpolate_polynom(a, b, q, f));
+  vf_assert(vfh_exc == 0, "interpolation does not throw for well-formed arguments");
+  bool distinct = true;
+  for (unsigned i = 0; i < H_IM; ++i) for (unsigned j = 0; j < i; ++j) if (mpz_cmp(a[i], a[j]) == 0) distinct = false;
+  vf_assert(ok == distinct, "interpolation succeeds exactly for pairwise distinct abscissae");
+  if (ok) for (unsigned k = 0; k < H_IM; ++k) {
+    long acc = 0, xv = (long)mpz_get_ui(a[k]);
+    for (int d = (int)H_IM - 1; d >= 0; --d) acc = (acc * xv + (long)mpz_get_ui(f[d])) % H_IQ;     // Horner
+    vf_assert(acc == (long)mpz_get_ui(b[k]), "the interpolated polynomial reproduces every given point");
+    vf_assert(mpz_sgn(f[k]) >= 0 && mpz_cmp(f[k], q) < 0, "coefficients are reduced residues");
+  }
+  H_END();
+}
+#endif
